@@ -459,6 +459,8 @@ def build(s: dict, ch: Optional[dict] = None, rng: Optional[random.Random] = Non
         sp.reserved = junk(84)
         # the header's file-size field is informational: smaller than, equal to, larger than the real length
         sp.size_override = rng.choice([0, 4, 100, 127, 128, 129, rng.randrange(1, 600), rng.randrange(2 ** 32), 2 ** 32 - 1])
+    if ch.get("hdr_flags") is not None:
+        sp.flags = ch["hdr_flags"]
     return sp
 
 
